@@ -53,6 +53,16 @@ def int_cmp(se, env, pc, a, b):
 
 
 def ident(se, env, pc, x, *rest): return one(env, x)
+
+
+def ptr_deref(se, env, pc, x, *rest):
+    """Deref of a smart pointer / guard: `x` is a reference to the pointer. Pointers are modelled either transparently
+    (the pointee value itself) or as a Ref to the pointee."""
+    if isinstance(x, Ref):
+        try: v = get_at(env[x.local], x.path)
+        except (KeyError, IndexError, TypeError): return one(env, x)
+        if isinstance(v, Ref): return one(env, v)
+    return one(env, x)
 def deref1(se, env, pc, x, *rest): return one(env, se.deref(env, x))
 def unit(se, env, pc, *a): return one(env, ())
 def false_(se, env, pc, *a): return one(env, BoolVal(False))
@@ -201,10 +211,94 @@ def first_last(idx):
 def clone_deep(se, env, pc, r): return one(env, se.deref(env, r))
 
 
+def cps(f):
+    f.cps = True; return f
+
+
+def closure_fn(se, env, clo):
+    c = se.deref(env, clo) if isinstance(clo, Ref) else clo
+    if isinstance(c, dict) and '__closure' in c and c['__closure'] in se.mir.closures:
+        f = se.mir.closures[c['__closure']]; f.parse(); return f, c
+    raise Inconclusive('call of unknown closure %r' % (c,))
+
+
+def apply_closure(se, env, pc, clo, args, k):
+    """CPS call of a closure value with argument list `args`; k(ret, env, pc)."""
+    f, c = closure_fn(se, env, clo)
+    first = f.locals.get('_1', '')
+    selfarg = c
+    if first.startswith('&'):
+        if isinstance(clo, Ref): selfarg = clo
+        else:
+            se.ncell = getattr(se, 'ncell', 0) + 1
+            cell = '$clo%d' % se.ncell; env = dict(env); env[cell] = c; selfarg = Ref(cell)
+    se.run_fn(f, [selfarg] + list(args), env, pc, k)
+
+
+@cps
+def it_map(se, env, pc, vals, cont):
+    it, clo = vals
+    cont(dict(it, maps=it.get('maps', []) + [clo]), env, pc)
+
+
+def it_pull(se, env, pc, it, k):
+    """Next element of a (possibly mapped) iterator value: k(Some-value or None, new iterator value, env, pc)."""
+    if not it['it']: return k(None, it, env, pc)
+    x, rest = it['it'][0], dict(it, it=it['it'][1:])
+    maps = it.get('maps', [])
+    def ap(i, v, env, pc):
+        if i == len(maps): return k(('some', v), rest, env, pc)
+        apply_closure(se, env, pc, maps[i], [v], lambda r, e, p: ap(i + 1, r, e, p))
+    ap(0, x, env, pc)
+
+
+@cps
+def it_next_cps(se, env, pc, vals, cont):
+    r = vals[0]; it = se.deref(env, r)
+    def k(v, it2, env2, pc2):
+        e = dict(env2); se.store(e, r, it2)
+        cont(Enum('None') if v is None else Enum('Some', (v[1],)), e, pc2)
+    it_pull(se, env, pc, it, k)
+
+
+@cps
+def it_sum(se, env, pc, vals, cont):
+    it = vals[0]
+    def loop(acc, it, env, pc):
+        def k(v, it2, env2, pc2):
+            if v is None: return cont(acc, env2, pc2)
+            x = se.deref(env2, v[1]) if isinstance(v[1], Ref) else v[1]
+            from z3 import BVAddNoOverflow
+            ok = BVAddNoOverflow(acc, x, False)
+            if se.check(Not(ok)): se.panics.append((pc2 + [Not(ok)], 'attempt to add with overflow (Iterator::sum)', 'summary'))
+            se.under(ok, lambda: loop(acc + x, it2, env2, pc2 + [ok]))
+        it_pull(se, env, pc, it, k)
+    loop(bv(0), it, env, pc)
+
+
+@cps
+def it_collect(se, env, pc, vals, cont):
+    it = vals[0]
+    def loop(acc, it, env, pc):
+        def k(v, it2, env2, pc2):
+            if v is None: return cont(acc, env2, pc2)
+            loop(acc + [v[1]], it2, env2, pc2)
+        it_pull(se, env, pc, it, k)
+    loop([], it, env, pc)
+
+
 def std_summaries():
     S = {}
     P = {}
     S['$patterns'] = P
+    P[r'<.* as Iterator>::map'] = it_map
+    P[r'<Map<.*> as Iterator>::sum'] = it_sum
+    P[r'<.* as Iterator>::sum'] = it_sum
+    P[r'<Map<.*> as Iterator>::next'] = it_next_cps
+    P[r'<.* as Iterator>::collect'] = it_collect
+    P[r'parking_lot::lock_api::RwLock::(?:read|write)'] = ident
+    P[r'<parking_lot::lock_api::RwLock(?:Read|Write)Guard<.*> as Deref(?:Mut)?>::deref(?:_mut)?'] = ptr_deref
+    P[r'<.* as AsRef<.*>>::as_ref'] = ident
     # logging / formatting
     P[r'<(?:log::)?Level as PartialOrd<(?:log::)?LevelFilter>>::le'] = false_
     P[r'log::__private_api::.*'] = unit
@@ -218,7 +312,7 @@ def std_summaries():
     P[r'(?:Arc|Rc|Box)::new'] = ident
     P[r'<(?:Arc|Rc|Box)<.*> as Clone>::clone'] = deref1
     P[r'Arc::clone'] = deref1
-    P[r'<(?:Arc|Rc|Box|&|&mut )<?.*>? as (?:Deref|DerefMut|AsRef<.*>|Borrow<.*>)>::(?:deref|deref_mut|as_ref|borrow)'] = ident
+    P[r'<(?:Arc|Rc|Box|&|&mut )<?.*>? as (?:Deref|DerefMut|AsRef<.*>|Borrow<.*>)>::(?:deref|deref_mut|as_ref|borrow)'] = ptr_deref
     P[r'<Vec<.*> as (?:Deref|DerefMut|AsRef<.*>)>::(?:deref|deref_mut|as_ref)'] = ident
     P[r'Vec::(?:as_slice|as_mut_slice)'] = ident
     P[r'Arc::ptr_eq'] = lambda se, env, pc, a, b: one(env, BoolVal(base_ref(se, env, a).local == base_ref(se, env, b).local and base_ref(se, env, a).path == base_ref(se, env, b).path) if isinstance(a, Ref) and isinstance(b, Ref) else Opaque('ptr_eq'))
